@@ -317,8 +317,8 @@ fn c02_body(args: &Args, prop: &str, idx: usize, rng: &mut Rng, case: &Case, c: 
 pub fn run_c02(args: &Args) -> i32 {
     let t0 = std::time::Instant::now();
     let n = args.cases.unwrap_or(match args.tier {
-        Tier::Quick => 300,
-        Tier::Thorough => 12000,
+        Tier::Quick => 1200,
+        Tier::Thorough => 20000,
     });
     let (jp, sc) = match args.tier {
         Tier::Quick => (3, 2),
@@ -422,8 +422,8 @@ fn c01_body(args: &Args, prop: &str, idx: usize, rng: &mut Rng, case: &Case, c: 
 pub fn run_c01(args: &Args) -> i32 {
     let t0 = std::time::Instant::now();
     let n = args.cases.unwrap_or(match args.tier {
-        Tier::Quick => 400,
-        Tier::Thorough => 20000,
+        Tier::Quick => 1500,
+        Tier::Thorough => 30000,
     });
     let seeds = 2;
     let results = run_cases(n, args.threads, |r: &TriCaseOut| r.violation.is_some(), |i| c01_case(args, "C01", i, &general_case, seeds));
@@ -442,8 +442,8 @@ pub fn run_c01(args: &Args) -> i32 {
 pub fn run_c19(args: &Args) -> i32 {
     let t0 = std::time::Instant::now();
     let n = args.cases.unwrap_or(match args.tier {
-        Tier::Quick => 48,
-        Tier::Thorough => 3000,
+        Tier::Quick => 160,
+        Tier::Thorough => 4000,
     });
     let max_rows = 6;
     let gen = move |rng: &mut Rng| Some(crate::gen_tables::join_case(rng, max_rows).0);
@@ -463,8 +463,8 @@ pub fn run_c19(args: &Args) -> i32 {
 pub fn run_c05(args: &Args) -> i32 {
     let t0 = std::time::Instant::now();
     let n = args.cases.unwrap_or(match args.tier {
-        Tier::Quick => 600,
-        Tier::Thorough => 60000,
+        Tier::Quick => 3000,
+        Tier::Thorough => 100000,
     });
     // the case index is needed by the generator (exhaustive 8-bit cases come first)
     let results = run_cases(n, args.threads, |r: &TriCaseOut| r.violation.is_some(), |i| {
@@ -486,8 +486,8 @@ pub fn run_c05(args: &Args) -> i32 {
 pub fn run_c18(args: &Args) -> i32 {
     let t0 = std::time::Instant::now();
     let n = args.cases.unwrap_or(match args.tier {
-        Tier::Quick => 300,
-        Tier::Thorough => 20000,
+        Tier::Quick => 900,
+        Tier::Thorough => 30000,
     });
     let gen = move |rng: &mut Rng| {
         Some(if rng.chance(2, 3) { crate::gen_tables::sort_case(rng).0 } else { crate::gen_tables::perm_case(rng).0 })
